@@ -531,10 +531,11 @@ class FileDomain(NormDomain):
         # pointwise indexing with one integer array per axis: a[rows, cols]
         if len(items) == arr.ndim >= 2 and all(isinstance(x, (FArr, Tup)) for x in items):
             lists = []
+            nd_shapes = {x.shape for x in items if isinstance(x, FArr) and x.ndim != 1}
+            if nd_shapes and (len(nd_shapes) != 1 or not all(isinstance(x, FArr) and x.ndim != 1 for x in items)):
+                return None         # index arrays of several shapes broadcast against each other: not modelled
             for x, d in zip(items, arr.shape):
                 cells = x.values() if isinstance(x, FArr) else x.items
-                if isinstance(x, FArr) and x.ndim != 1:
-                    return None
                 ii = [self._int(c) for c in cells]
                 if None in ii:
                     return None
@@ -547,7 +548,7 @@ class FileDomain(NormDomain):
                     lists = [l * n_ if len(l) == 1 else l for l in lists]
                 if len({len(l) for l in lists}) != 1:
                     raise AbsRaise('IndexError', node)
-            return (len(lists[0]),), [arr.flat_index(idx) for idx in zip(*lists)]
+            return (tuple(nd_shapes)[0] if nd_shapes else (len(lists[0]),)), [arr.flat_index(idx) for idx in zip(*lists)]
         n_real = sum(1 for x in items if not (isinstance(x, Const) and (x.v is None or x.v is Ellipsis)))
         if any(isinstance(x, Const) and x.v is Ellipsis for x in items):
             k = [i for i, x in enumerate(items) if isinstance(x, Const) and x.v is Ellipsis][0]
